@@ -213,6 +213,30 @@ class Module:
         return t.kind == "named" and self.types.get(t.name) is None
 
     def sizeof(self, t):
+        c = self.__dict__.setdefault("_szc", {})
+        key = t.key()
+        r = c.get(key)
+        if r is None:
+            r = c[key] = self._sizeof(t)
+        return r
+
+    def alignof(self, t):
+        c = self.__dict__.setdefault("_alc", {})
+        key = t.key()
+        r = c.get(key)
+        if r is None:
+            r = c[key] = self._alignof(t)
+        return r
+
+    def field_offset(self, t, idx):
+        c = self.__dict__.setdefault("_foc", {})
+        key = (t.key(), idx)
+        r = c.get(key)
+        if r is None:
+            r = c[key] = self._field_offset(t, idx)
+        return r
+
+    def _sizeof(self, t):
         t = self.resolve(t)
         k = t.kind
         if k == "int":
@@ -255,7 +279,7 @@ class Module:
             return off
         raise IRError("sizeof %s" % t)
 
-    def alignof(self, t):
+    def _alignof(self, t):
         t = self.resolve(t)
         k = t.kind
         if k == "int":
@@ -285,7 +309,7 @@ class Module:
             return max([self.alignof(f) for f in t.fields] or [1])
         raise IRError("alignof %s" % t)
 
-    def field_offset(self, t, idx):
+    def _field_offset(self, t, idx):
         t = self.resolve(t)
         off = 0
         for i, f in enumerate(t.fields):
